@@ -106,7 +106,8 @@ class CodecMonitor(Monitor):
         # the repository's own decoder must agree as well
         try:
             hdr = PacketHeader.from_bytes(not e["to_client"], data)
-            pkt = Packet.from_bytes(hdr, e["key"], data)
+            # the receiver of a SERVER_HELLO holds no key yet: decode as that receiver would
+            pkt = Packet.from_bytes(hdr, e["key"] if encrypted else None, data)
             mine = [(int(m.seq), m.type.value, bytes(m.payload)) for m in pkt.msgs]
             if mine != e["msgs"] or hdr.count != e["count"] or hdr.length != e["length"] or int(hdr.ack) != e["ack"] \
                     or hdr.ack_bits != e["bits"] or int(hdr.seq) != e["seq"]:
